@@ -5,7 +5,8 @@
 # property's quick check against a scratch copy carrying the change, and
 # files it under /verif/seeded/<prop>-<X>/.
 prop=$1; x=$2; tests=$3; shift 3
-wt=/tmp/seed_$prop
+wt=/tmp/${SEEDROOT:-seed}_$prop
+sfx=${SEEDSFX:-}
 cd $wt || exit 9
 git checkout -q -- . 2>/dev/null
 export PYTHONPATH=$wt
@@ -25,12 +26,12 @@ for p in $prop "$@"; do
   echo "check $p: $(echo "$out" | head -2 | tr '\n' ' ' | cut -c1-220)"
   echo "$out" | grep -q "^exit=1" && det="$det $p"
 done
-d=/verif/seeded/$prop-$x
+d=/verif/seeded/$prop-$x$sfx
 mkdir -p $d
 cp $wt/seed/$x.diff $d/patch.diff; cp $wt/seed/${x}_demo.py $d/demo.py; cp $wt/seed/${x}_notes.md $d/notes.md
 python3 - <<PY
 import json
-json.dump({"property": "$prop", "seed": "$prop-$x", "origin": "independent sub-agent given only the property text and a scratch worktree",
+json.dump({"property": "$prop", "seed": "$prop-$x$sfx", "origin": "independent sub-agent given only the property text and a scratch worktree",
  "demo_rc_unchanged": $rc_clean, "demo_rc_with_change": $rc_mut, "existing_tests": "$tests", "existing_tests_rc": "$rc_tests",
  "detected_by_quick_checks": "$det".split(), "checks_run": "$prop $@".split(),
  "what_i_ran": "tools/seedcheck.sh $prop $x '$tests' $@ (demo without/with the change in the scratch worktree, the listed existing tests with the change, then ./check <id> --tier quick against a scratch copy of /repo carrying the change via VF_REPO)"},
